@@ -250,10 +250,12 @@ class Case:
                 # an earlier ready connection of the same peer, the one under test must not be the one offered)
                 self.witness("routing.used_before_exchange_succeeded", {"state": self.state})
 
-    def send_letter(self, letter):
+    def send_letter(self, letter, mod=""):
         M, REALM = self.M, self.REALM
         hbh, e2e = self.w.ids()
         p = self.p
+        if mod:
+            p = _Transport(self, mod)
         auth = self.auth_ids or [4]
         if letter == "CERk":
             p.send(M.cer(PEER, REALM, auth=auth, acct=self.acct_ids, hbh=hbh, e2e=e2e), letter)
@@ -288,12 +290,15 @@ class Case:
     def step(self, letter):
         h, w = self.h, self.w
         st0 = self.state
+        # transport modifiers: ~L = the message is several reads long (a padding AVP of 5 KiB; the node reads 2 KiB at a
+        # time), ~S = it arrives in two segments with the node running in between. What the message means is unchanged.
+        letter, _, mod = letter.partition("~")
         if letter.startswith("ADV"):
             dt = int(letter[3:]) if len(letter) > 3 else (self.cea_timeout if self.direction == "out" else self.cer_timeout) + 1
             h.advance(dt)
             ids = None
         else:
-            ids = self.send_letter(letter)
+            ids = self.send_letter(letter, mod)
         h.settle()
         ev = w.observe()["events"]
         frames = self.p.frames[self.seen:]
@@ -453,6 +458,39 @@ class Case:
             return
 
 
+class _Transport:
+    """Stands in for the scripted peer while one letter is sent: pads the frame (~L) and / or delivers it in two
+    segments, letting the node run to quiescence on the first one (~S). Before the second segment nothing may have
+    happened: no frame, no delivery, no close - whatever the state, an incomplete message is not a message yet."""
+
+    def __init__(self, case, mod):
+        self.case, self.mod = case, mod
+
+    def send(self, data, label=None):
+        from vf import refcodec as R
+        c = self.case
+        if "L" in self.mod:
+            pad = R.enc_avp(25, bytes((i * 7 + 3) % 251 + 1 for i in range(5003)), 0, 0)   # Class, no zero octets
+            data = data[:1] + (len(data) + len(pad)).to_bytes(3, "big") + data[4:] + pad
+            c.run.cov["letters_longer_than_one_read"] = c.run.cov.get("letters_longer_than_one_read", 0) + 1
+        if "S" in self.mod:
+            cuts = [20, 21, len(data) - 1, len(data) // 2, 1, 19, 2048, 2049, len(data) - 20]
+            cut = cuts[h64(c.cfg_name, repr(c.script), len(c.trace)) % len(cuts)]
+            cut = min(max(cut, 1), len(data) - 1)
+            c.p.send(data[:cut], (label or "") + "~part1")
+            c.h.settle()
+            ev = c.w.observe()["events"]
+            frames = c.p.frames[c.seen:]
+            if frames or c.deliveries(ev) or c.p.node_sock.closed:
+                c.witness("segment.incomplete_message_had_an_effect." + (label or "?").split("|")[0],
+                          {"cut": cut, "of": len(data), "frames": [repr(f) for f in frames],
+                           "closed": c.p.node_sock.closed, "state": c.state})
+            c.run.cov["letters_in_two_segments"] = c.run.cov.get("letters_in_two_segments", 0) + 1
+            c.p.send(data[cut:], (label or "") + "~part2")
+        else:
+            c.p.send(data, label)
+
+
 def node_NotRoutable():
     from diameter.node.node import NotRoutable
     return NotRoutable
@@ -539,6 +577,8 @@ def run_shard(spec):
                     l = cerx(**{k: rng.sample(pool, rng.randrange(0, 3)) for k in ("a", "c", "va", "vc")})
                 if l == "ADV" and rng.random() < 0.7:
                     l = "ADV" + str(rng.choice([1, 1, 2, 3, 4, 5, 7, 10]))
+                elif l != "ADV" and rng.random() < 0.15:
+                    l += rng.choice(["~L", "~S", "~LS"])
                 script.append(l)
             run.one(rng.choice(cfgs), rng.choice(["in", "out", "in", "out", "in+ready"]), script)
     elif spec["kind"] == "apps":
@@ -564,6 +604,15 @@ def run_shard(spec):
                     run.one(cfg, "in+ready" if tail == ("DWR",) else "in", (cerx(**pl),) + tail)
                     run.cov["apps_cases"] = run.cov.get("apps_cases", 0) + 1
     else:
+        # directed transport: every kind of message, long and / or in two segments, before and after the exchange
+        for cfg in cfgs[:4]:
+            for direction in ("in", "out"):
+                ce = "CERk" if direction == "in" else "CEA2"
+                for l in ("REQ", "ANS", "DWR", "DWA", "DPR", "DPA", "CEA2" if direction == "in" else "CERk"):
+                    for mod in ("~L", "~S", "~LS"):
+                        run.one(cfg, direction, (l + mod, ce, "REQ", "DWR"))
+                        run.one(cfg, direction, (ce + mod, l + mod, "REQ" + mod, "DWR" + mod))
+                        run.cov["transport_cases"] = run.cov.get("transport_cases", 0) + 2
         # directed timing: ignored traffic just before the deadline, advance to exactly / past the timeout
         for cfg in cfgs:
             for direction in ("in", "out"):
